@@ -10,6 +10,7 @@
 #include <stdint.h>
 #include <time.h>
 #include <unistd.h>
+#include <sys/wait.h>
 #include <execinfo.h>
 
 #include <jwt.h>
@@ -381,18 +382,37 @@ static void handle(char *line)
 				if (!strcmp(via, "file")) r = jwks_load_fromfile(g_sets[s], path);
 				else { rewind(f); r = jwks_load_fromfp(g_sets[s], f); }
 				fclose(f); unlink(path);
+			} else if (!strcmp(via, "pipe")) {
+				/* a stream that cannot seek: a child process writes the document into a pipe */
+				int pfd[2];
+				r = NULL;
+				fflush(stdout);
+				if (!pipe(pfd)) {
+					pid_t pid = fork();
+					if (pid == 0) {
+						close(pfd[0]);
+						size_t off = 0;
+						while (js && off < l1) { ssize_t w = write(pfd[1], js + off, l1 - off); if (w <= 0) break; off += (size_t)w; }
+						_exit(0);
+					}
+					close(pfd[1]);
+					FILE *f = fdopen(pfd[0], "r");
+					r = jwks_load_fromfp(g_sets[s], f);
+					fclose(f);
+					if (pid > 0) { int st; waitpid(pid, &st, 0); }
+				}
 			} else r = jwks_load_strn(g_sets[s], (char *)js, l1);
 			if (r) g_sets[s] = r;
 			if (!r) printf("NULL");
 			else printf("err=%d emsg=%d n=%zu", jwks_error(r), jwks_error_msg(r)[0] ? 1 : 0, jwks_item_count(r));
 			free(js);
 		} else if (!g_sets[s]) { printf("noset");
-		} else if (!strcmp(t[2], "item") && n >= 4) { print_item(jwks_item_get(g_sets[s], (size_t)atol(t[3])));
+		} else if (!strcmp(t[2], "item") && n >= 4) { print_item(jwks_item_get(g_sets[s], (size_t)strtoull(t[3], NULL, 10)));
 		} else if (!strcmp(t[2], "pem") && n >= 4) {
-			const jwk_item_t *it = jwks_item_get(g_sets[s], (size_t)atol(t[3]));
+			const jwk_item_t *it = jwks_item_get(g_sets[s], (size_t)strtoull(t[3], NULL, 10));
 			putstr(it ? jwks_item_pem(it) : NULL);
 		} else if (!strcmp(t[2], "count")) { printf("%zu", jwks_item_count(g_sets[s]));
-		} else if (!strcmp(t[2], "free") && n >= 4) { printf("%d", jwks_item_free(g_sets[s], (size_t)atol(t[3])));
+		} else if (!strcmp(t[2], "free") && n >= 4) { printf("%d", jwks_item_free(g_sets[s], (size_t)strtoull(t[3], NULL, 10)));
 		} else if (!strcmp(t[2], "drop")) { jwks_free(g_sets[s]); g_sets[s] = NULL; printf("ok");
 		} else if (!strcmp(t[2], "freebad")) { printf("%d", jwks_item_free_bad(g_sets[s]));
 		} else if (!strcmp(t[2], "freeall")) { printf("%d", jwks_item_free_all(g_sets[s]));
